@@ -218,6 +218,46 @@ def _apd_setter_units():
 _apd_setter_units()
 
 
+def _apd_ctor_units():
+    """APDCharacteristics.__init__ (its own constructor, not the base class's): every validated field handed to the constructor is
+    stored only inside its documented range (avalanche gain with a pixel reset voltage as the two given quantities; the empirical
+    gain <-> bias formulas are contracts)."""
+    for (path, cls, name, attr, lo, hi, strict) in APD_SETTERS:
+        def ctor_unit(u: Unit, path=path, cls=cls, name=name, attr=attr, lo=lo, hi=hi, strict=strict):
+            fi = u.fn(f"{path}::{cls}.__init__")
+            ci = u.cls(f"{path}::{cls}")
+            cfg = Cfg("fp")
+            for q in ("gain_to_bias_saphira", "bias_to_gain_saphira", "bias_to_node_capacitance_saphira", "detector_gain_saphira"):
+                cfg.contracts[f"{path}::{cls}.{q}"] = Contract(f"{path}::{cls}.{q}", lambda ex, args, kwargs, fr: VFloat(ex.st.fresh_fp("saphira")), "empirical conversion formula (outside)")
+            normal = 0
+            extra = {"roic_gain": 0.8, "pixel_reset_voltage": 12.0}
+            if name != "avalanche_gain":
+                extra["avalanche_gain"] = 2.0
+            for tag in SCALAR_TAGS:
+                if tag == "str" or (tag == "none" and name == "avalanche_gain"):
+                    continue
+                val = sym_scalar("value", tag)
+
+                def setup(ex, val=val):
+                    obj = ex.st.alloc(HObj(ci, {}))
+                    ex.self_ref = obj
+                    kw = {k: VFloat(v) for k, v in extra.items()}
+                    kw[name] = val
+                    return [obj], kw
+                for p in u.paths(fi, setup, cfg, label=f"{cls}.__init__[{name}:{tag}]"):
+                    if p.kind != "return":
+                        continue
+                    normal += 1
+                    stored = p.field(p.ex.self_ref, attr)
+                    w = {"value": term_of(val), "tag": tag}
+                    u.oblige(p, f"ctor.valid[{cls}.{name}:{tag}]", zb(in_range(stored, lo, hi, strict)), w, ctor_replay("pyxel.detectors", cls, name, attr, lo, hi, strict, extra))
+            u.cover(f"ctor.cover[{cls}.{name}]", [1] * normal, lambda _: True)
+        unit("C12", f"ctor[{cls}.{name}]")(ctor_unit)
+
+
+_apd_ctor_units()
+
+
 # ---- exactly one running mode and one detector -----------------------------------------------------------------------
 CFGQ = "pyxel/configuration/configuration.py"
 MODES = ["exposure", "observation", "calibration"]
